@@ -287,12 +287,18 @@ struct IsoObs {
 pub struct IsolationScenario {
     pub cfg_a: Cfg,
     pub cfg_b: Cfg,
+    /// how the stalled port's sender gets stuck: 0 = whole messages as large as the receive buffer,
+    /// 1 = a chunked message whose body uses up exactly the granted credit, then finish(),
+    /// 2 = a chunked message with a chunk larger than the remaining credit,
+    /// 3 = port requests (connect) over the stalled port after its credit is used up
+    pub mode: u8,
 }
 
 impl Scenario for IsolationScenario {
     fn id(&self) -> String {
         format!(
-            "c03c/a={},{},{},{}/b={},{}",
+            "c03c/m{}/a={},{},{},{}/b={},{}",
+            self.mode,
             self.cfg_a.chunk_size,
             self.cfg_a.receive_buffer,
             self.cfg_a.shared_send_queue,
@@ -305,6 +311,7 @@ impl Scenario for IsolationScenario {
     fn start(&self, env: Env) -> (BoxFuture<'static, ()>, Judge) {
         let obs = shared(IsoObs::default());
         let (cfg_a, cfg_b) = (self.cfg_a.clone(), self.cfg_b.clone());
+        let mode = self.mode;
         let rb = cfg_b.receive_buffer as usize;
         let max_ports = [cfg_a.max_ports, cfg_b.max_ports];
         let o2 = obs.clone();
@@ -329,11 +336,43 @@ impl Scenario for IsolationScenario {
             env.explore(true);
             let o3 = o2.clone();
             let _blocked = env.spawn("blocked-sender", 1, async move {
-                for i in 0..4 {
-                    if tx1.send(payload(i, rb)).await.is_err() {
-                        break;
+                match mode {
+                    0 => {
+                        for i in 0..4 {
+                            if tx1.send(payload(i, rb)).await.is_err() {
+                                break;
+                            }
+                            o3.lock().unwrap().blocked_sent += 1;
+                        }
                     }
-                    o3.lock().unwrap().blocked_sent += 1;
+                    1 | 2 => {
+                        // body of exactly rb bytes (mode 2: one byte more in the last chunk), then the empty final frame
+                        let half = rb / 2;
+                        let mut cs = Some(tx1.send_chunks());
+                        for (i, n) in [half, rb - half + if mode == 2 { 1 } else { 0 }].into_iter().enumerate() {
+                            match cs.take().unwrap().send(payload(i, n)).await {
+                                Ok(c) => {
+                                    cs = Some(c);
+                                    o3.lock().unwrap().blocked_sent += 1;
+                                }
+                                Err(_) => break,
+                            }
+                        }
+                        if let Some(cs) = cs {
+                            let _ = cs.finish().await;
+                            o3.lock().unwrap().blocked_sent += 1;
+                        }
+                    }
+                    _ => {
+                        // use up the credit, then ask for ports over the stalled port
+                        if tx1.send(payload(0, rb)).await.is_ok() {
+                            o3.lock().unwrap().blocked_sent += 1;
+                            if let Ok(connects) = tx1.connect(vec![remoc::chmux::PortReq::new(tx1.port_allocator().allocate().await), remoc::chmux::PortReq::new(tx1.port_allocator().allocate().await)], true).await {
+                                o3.lock().unwrap().blocked_sent += 1;
+                                drop(connects);
+                            }
+                        }
+                    }
                 }
                 tx1
             });
@@ -563,10 +602,13 @@ pub fn connect_scenarios(tier: Tier) -> Vec<Arc<dyn Scenario>> {
 }
 
 pub fn isolation_scenarios(_tier: Tier) -> Vec<Arc<dyn Scenario>> {
-    vec![
-        Arc::new(IsolationScenario { cfg_a: cfg(4, 8, 16, 1, 1), cfg_b: cfg(4, 8, 16, 1, 1) }),
-        Arc::new(IsolationScenario { cfg_a: cfg(8, 16, 16, 2, 1), cfg_b: cfg(4, 5, 16, 1, 1) }),
-    ]
+    let mut out: Vec<Arc<dyn Scenario>> = Vec::new();
+    for mode in 0..4u8 {
+        out.push(Arc::new(IsolationScenario { cfg_a: cfg(4, 8, 16, 1, 1), cfg_b: cfg(4, 8, 16, 1, 1), mode }));
+        out.push(Arc::new(IsolationScenario { cfg_a: cfg(8, 16, 16, 2, 1), cfg_b: cfg(4, 5, 16, 1, 1), mode }));
+        out.push(Arc::new(IsolationScenario { cfg_a: cfg(16, 16, 32, 1, 1), cfg_b: cfg(16, 16, 32, 1, 1), mode }));
+    }
+    out
 }
 
 pub fn all_scenarios(tier: Tier) -> Vec<Arc<dyn Scenario>> {
